@@ -192,7 +192,7 @@ def r10_2(ctx, rc):
     def removes_own(x):
         return Q.is_call(x, R.builder + '._try_to_remove_file') and \
             x.call.args and _own_filename(
-                ctx.H.subst(x.call.args[0], x.func, x.cn))
+                ctx.H.subst_frames(x.call.args[0], x))
     steps = [
         ('marks the record raised', _store_true('raised')),
         ('releases the directory reservation',
